@@ -267,6 +267,21 @@ func (wa *writeAnalyzer) instrs(ins []ssa.Instruction, w *WriteSet, fn *ssa.Func
 }
 
 func (wa *writeAnalyzer) call(c *ssa.CallCommon, w *WriteSet, fn *ssa.Function) {
+	if fc := wa.eng.contractFor(fn); fc != nil && len(fc.PointSets) > 0 {
+		name := ""
+		if c.IsInvoke() {
+			name = shortName(c.Method.FullName())
+		} else if f := c.StaticCallee(); f != nil {
+			name = shortName(f.String())
+		}
+		for _, ps := range fc.PointSets {
+			if ps.Callee == name {
+				if g, ok := wa.eng.contracts.Ghosts[ps.Set.Var]; ok {
+					w.keys[regKey("GH:"+ps.Set.Var, wa.eng.ghostSort(g))] = true
+				}
+			}
+		}
+	}
 	if c.IsInvoke() {
 		impls := wa.eng.implementors(c.Value.Type(), c.Method)
 		if ic := wa.eng.contractForInvoke(c); ic != nil && ic.Modifies != nil {
